@@ -73,6 +73,7 @@ type verifViolation struct {
 	Path   []verifEv `json:"path,omitempty"`
 	Case   string    `json:"case,omitempty"` // for enumerations: JSON of the failing case
 	Count  int       `json:"count"`          // how many times this signature was observed in the run
+	More   []string  `json:"more,omitempty"` // further cases with the same signature
 }
 
 type verifStats struct {
